@@ -40,6 +40,15 @@ TABLE = {
     ("DEFAULT_SIGFIGS", "nat", "Pcap(os.devnull, mode='a').sigfigs"),
     ("DEFAULT_SNAPLEN", "nat", "Pcap(os.devnull, mode='a').snaplen"),
     ("DEFAULT_NETWORK", "nat", "Pcap(os.devnull, mode='a').network"),
+    # the size limit of one read() in the bounded-piece loop of Pcap.next (`self.fopen.read(min(_todo, 1 << 20))`):
+    # the second argument of the `min(_todo, …)` call, read from the AST of the method (fails, = broken tie, when the
+    # loop is no longer there)
+    ("READ_CHUNK", "nat",
+     "(lambda ast, inspect, textwrap: [eval(compile(ast.Expression(c.args[1]), 'chunk', 'eval')) "
+     "for c in ast.walk(ast.parse(textwrap.dedent(inspect.getsource(Pcap.next)))) "
+     "if isinstance(c, ast.Call) and getattr(c.func, 'id', None) == 'min' and len(c.args) == 2 "
+     "and getattr(c.args[0], 'id', None) == '_todo'][0])"
+     "(__import__('ast'), __import__('inspect'), __import__('textwrap'))"),
   ]),
 }
 INLINE = {
